@@ -932,6 +932,89 @@ fn c18(args: &Args) -> ! {
     finish(&rep, args)
 }
 
+// ================================================================================== C10 (command-line tool)
+
+fn c10cli(args: &Args) -> ! {
+    use std::convert::TryFrom;
+    use varlink_parser::{Format, FormatColored, IDL};
+    let mut rep = Report::new("C10", "the command-line tool: `varlink --color {on,off} format [-c W] FILE` for 5 definitions (docs, nested structs/enums, long names, CRLF input) x widths {default, 0, 1, 30, 60, 80, 120, 1000}: stdout must be exactly the library's top-level rendering at that width (plain or colored) plus a newline, and must parse back to the same definition; non-trivial = distinct (definition, width, colour)");
+    if !Path::new(VARLINK_CLI).exists() {
+        machinery("varlink CLI binary missing (./check --setup builds it)");
+    }
+    colored::control::set_override(true);
+    let dir = tempfile::Builder::new().prefix("px10").tempdir().unwrap();
+    let texts: Vec<String> = vec![
+        "interface a.b\nmethod A()->()\n".into(),
+        "# doc\n# line2\ninterface org.example.x\n\n# m\nmethod Ping(ping: string, more_of_a_long_parameter_name: ?[](a: int, b: (x, y, z))) -> (pong: string)\n\ntype T (a: int, b: ?[]string, c: [string](k: (m: ?[]int)))\nerror E (why: [string]T)\n".into(),
+        "interface a.b\r\n# crlf doc\r\ntype E (one, two, three)\r\nmethod M(e: E) -> (r: [](k: ?[string]()))\r\n".into(),
+        format!("interface x-y.z9\nerror {} ()\ntype S ()\nmethod M{}() -> ()", "E".repeat(30), "m".repeat(40)),
+        std::fs::read_to_string("/repo/varlink-certification/src/org.varlink.certification.varlink").unwrap_or_else(|_| "interface a.c\nmethod X()->()\n".into()),
+    ];
+    let replay = args.replay_case();
+    let mut idx = 0u64;
+    for (ti, t) in texts.iter().enumerate() {
+        let f = dir.path().join(format!("t{}.varlink", ti));
+        std::fs::write(&f, t).unwrap();
+        let idl = match IDL::try_from(t.as_str()) {
+            Ok(i) => i,
+            Err(e) => machinery(&format!("corpus text {} does not parse: {}", ti, e)),
+        };
+        for w in [None, Some(0usize), Some(1), Some(30), Some(60), Some(80), Some(120), Some(1000)] {
+            for color in ["off", "on"] {
+                idx += 1;
+                let case = json!({"text": ti, "width": w, "color": color});
+                if let Some(r) = &replay {
+                    if *r != case {
+                        continue;
+                    }
+                } else if !args.mine(idx) {
+                    continue;
+                }
+                rep.eval(Some(&case.to_string()));
+                if rep.want_sample() {
+                    rep.sample(case.clone());
+                }
+                let mut cmd = Command::new(VARLINK_CLI);
+                cmd.arg("--color").arg(color).arg("format");
+                if let Some(w) = w {
+                    cmd.arg("-c").arg(w.to_string());
+                }
+                cmd.arg(&f);
+                if color == "on" {
+                    // the `colored` crate only emits escape sequences on a terminal unless forced
+                    cmd.env("CLICOLOR_FORCE", "1");
+                }
+                let (status, out, err) = run_capped(cmd, None, Duration::from_secs(10));
+                let width = w.unwrap_or(80);
+                let want = if color == "on" { idl.get_multiline_colored(0, width) } else { idl.get_multiline(0, width) } + "\n";
+                let got = String::from_utf8_lossy(&out).to_string();
+                rep.outcome(&format!("{}:{}", ti, got.len()));
+                if status != "exit:0" {
+                    rep.violation("C10/cli/failed", &format!("varlink format exited with {}: {}", status, String::from_utf8_lossy(&err)), case.clone());
+                    continue;
+                }
+                if color == "on" && strip_ansi(&got) != idl.get_multiline(0, width) + "\n" {
+                    rep.violation("C10/cli/colored-differs-from-plain", &format!("the colored output minus escape sequences {:?} differs from the plain rendering", strip_ansi(&got).chars().take(400).collect::<String>()), case.clone());
+                }
+                if got != want {
+                    rep.violation("C10/cli/differs-from-library", &format!("stdout {:?} differs from the library's rendering {:?}", got.chars().take(400).collect::<String>(), want.chars().take(400).collect::<String>()), case.clone());
+                }
+                if color == "off" {
+                    match IDL::try_from(got.as_str()) {
+                        Ok(i2) => {
+                            if i2.name != idl.name || i2.method_keys != idl.method_keys || i2.typedef_keys != idl.typedef_keys || i2.error_keys != idl.error_keys || i2.doc != idl.doc {
+                                rep.violation("C10/cli/definition-changed", "the tool's output parses to a different definition", case.clone());
+                            }
+                        }
+                        Err(e) => rep.violation("C10/cli/output-does-not-parse", &format!("{}", e), case.clone()),
+                    }
+                }
+            }
+        }
+    }
+    finish(&rep, args)
+}
+
 fn main() {
     let argv: Vec<String> = std::env::args().collect();
     if argv.get(1).map(|s| s.as_str()) == Some("run-client") {
@@ -943,6 +1026,7 @@ fn main() {
         "c16" => c16(&args),
         "c20" => c20(&args),
         "c18" => c18(&args),
+        "c10" => c10cli(&args),
         other => {
             eprintln!("unknown subcommand {:?}", other);
             std::process::exit(2)
